@@ -499,7 +499,8 @@ def law_model(cx, schemas, hists, rl):
             topany = len(sh) >= 15 and sh[14] == "1"
             thm = "valdiff_exact_unchanged" if unchanged else ("valdiff_exact_partial_fresh" if fresh and toponly else
                                                              ("valdiff_exact_partial_top" if topany else None))
-            cx.dist["valdiff-proved:" + (thm or ("none(" + ("not-fresh" if not fresh else "changes-below-top-level") + ")"))] += 1
+            cx.dist["valdiff-proved:" + (thm or ("none(" + ("top-level-only-with-deletions-or-np-risk" if toponly else
+                                                         "changes-below-top-level" + ("" if fresh else "-not-fresh")) + ")"))] += 1
             if thm and not exact:
                 cx.fail(COMP, "model: the statement of the proved theorem %s evaluates to false on an input inside its hypotheses" % thm,
                         payload(h, "valdiff-model", vi, more=["model-law", thm]))
